@@ -16,7 +16,8 @@
       `_exec_job_main_thread`; refuted for both variants (KNOWN FINDING, no small repair). *)
 From Coq Require Import List ZArith Bool Arith.
 From RV Require Import Model.Timing Proofs.TimingBase Proofs.TimingSem Proofs.TimingStep Proofs.TimingInv
-  Proofs.TimingHF Proofs.TimingGraph Proofs.TimingLin Proofs.TimingWit Proofs.TimingProg.
+  Proofs.TimingHF Proofs.TimingGraph Proofs.TimingLin Proofs.TimingWit Proofs.TimingProg
+  Model.PendingExpr Proofs.PendingExprFacts.
 Import ListNotations.
 
 (** What two complete executions agree on. *)
@@ -116,6 +117,26 @@ Theorem C07_per_execution_witness_linear :
   (exists s, run per_execution (tbody W4) (init 0 []) W4_q_first = Some s /\ linear_b s = true).
 Proof. exact W4_linear. Qed.
 
+(** `_pending_expr`: one child job per distinct expression of a parent job, whenever the demands for it arrive
+    (eagerly, or later from a cond / seq / catch branch) and whenever jobs conclude — as long as an entry lives
+    until the parent is finalized (Model/PendingExpr.v). *)
+Theorem C07_one_child_job_per_expression :
+  forall evs e, count_occ Nat.eq_dec (child_jobs true evs) e = if memb e (demands evs) then 1 else 0.
+Proof. exact finalized_one_job_per_expression. Qed.
+
+Theorem C07_child_jobs_schedule_independent :
+  forall evs1 evs2, (forall e, In e (demands evs1) <-> In e (demands evs2)) ->
+    forall e, count_occ Nat.eq_dec (child_jobs true evs1) e = count_occ Nat.eq_dec (child_jobs true evs2) e.
+Proof. exact finalized_children_schedule_independent. Qed.
+
+(** entries released as soon as their job concludes (seeded change C07d): x = expensive(n); [x, cond(check(n), x, 0)]
+    gets a second child job for x iff expensive(n) concludes before check(n) *)
+Theorem C07_refuted_pending_expr_released_early :
+  demands PE_check_first = demands PE_expensive_first /\
+  child_jobs false PE_check_first = [7; 8] /\ child_jobs false PE_expensive_first = [7; 8; 7] /\
+  child_jobs true PE_check_first = [7; 8] /\ child_jobs true PE_expensive_first = [7; 8].
+Proof. exact released_early_refuted. Qed.
+
 (* NOT PROVED (and false for both variants, see C07_sibling_order_remains_fixed):
    forall body t0 args0 ops1 ops2 s1 s2, complete runs -> same_outcome s1 s2   for programs in which a
    Handle state is passed to several sibling calls.
@@ -190,3 +211,6 @@ Print Assumptions C07_sibling_order_remains_fixed.
 Print Assumptions C07_refuted_per_execution_counter.
 Print Assumptions C07_per_execution_witness_per_parent.
 Print Assumptions C07_per_execution_witness_linear.
+Print Assumptions C07_one_child_job_per_expression.
+Print Assumptions C07_child_jobs_schedule_independent.
+Print Assumptions C07_refuted_pending_expr_released_early.
